@@ -452,53 +452,48 @@ def _contains(s, types) -> bool:
 
 
 def single_exit(body, on_return):
-    """body with every `return v` replaced by on_return(v) (a statement list); statements after a returning `if`
-    are pushed into the branches that fall through.  Raises NoCanon when a return sits inside a loop/with."""
-    def rec(stmts):
+    """body with every `return v` replaced by on_return(v) (a statement list); what follows a returning `if` runs only on the
+    ways through it that fall through (it is pushed into exactly those ends, however deeply the returning branch is nested).
+    Raises NoCanon when a return sits inside a loop/with."""
+    def rec(stmts, tail):
+        """stmts followed by tail (the statements to run when stmts fall through)"""
         out = []
         for i, s in enumerate(stmts):
             rest = stmts[i + 1:]
             if isinstance(s, ast.Return):
                 out += on_return(s.value, s)
-                return out, True
+                return out
             if isinstance(s, ast.Raise):
                 out.append(s)
-                return out, True
+                return out
             if isinstance(s, ast.If) and _contains(s, ast.Return):
-                b, bt = rec(s.body)
-                o, ot = rec(s.orelse)
-                if rest and not (bt and ot):
-                    r1, rt = rec(copy.deepcopy(rest))
-                    if not bt:
-                        b = b + r1
-                    if not ot:
-                        o = o + copy.deepcopy(r1)
-                else:
-                    rt = False
-                new = ast.copy_location(ast.If(test=s.test, body=b or [ast.Pass()], orelse=o), s)
-                out.append(new)
-                return out, (bt or rt) and (ot or rt)
+                cont = list(rest) + list(tail)
+                b = rec(list(s.body), [copy.deepcopy(x) for x in cont])
+                o = rec(list(s.orelse), [copy.deepcopy(x) for x in cont])
+                out.append(ast.copy_location(ast.If(test=s.test, body=b or [ast.Pass()], orelse=o), s))
+                return out
             if isinstance(s, ast.Try) and _contains(s, ast.Return):
-                if rest:
+                if rest or tail:
                     raise NoCanon("return inside try followed by statements")
                 s2 = copy.copy(s)
-                s2.body, t1 = rec(s.body)
+                s2.body = rec(list(s.body), [])
                 hs = []
                 for h in s.handlers:
                     h2 = copy.copy(h)
-                    h2.body, _ = rec(h.body)
+                    h2.body = rec(list(h.body), [])
                     hs.append(h2)
                 s2.handlers = hs
-                s2.orelse, _ = rec(s.orelse)
-                s2.finalbody, _ = rec(s.finalbody)
+                s2.orelse = rec(list(s.orelse), [])
+                s2.finalbody = rec(list(s.finalbody), [])
                 out.append(s2)
-                return out, False
+                return out
             if _contains(s, ast.Return):
                 raise NoCanon("return inside a loop / with / match")
             out.append(s)
-        return out, False
-    res, _ = rec(list(body))
-    return res
+        if tail:
+            out += rec(list(tail), [])
+        return out
+    return rec(list(body), [])
 
 
 def _simple_arg(e) -> bool:
